@@ -14,35 +14,84 @@ Definition pre (R : grammar) (st : pst) : pst :=
 
 Ltac prj := cbn [p_mode p_name p_top p_stack p_acc p_neg p_cls p_rules f_done f_cur].
 
-Ltac unf :=
-  cbv [space_step dispatch cls_head got_char after_item add_item apply_rep set_mode set_acc set_top set_cls
-       err nested finish_rule frame_alts pre]; prj.
+(* head-level case split: the same scrutinee on both sides *)
+Ltac hd :=
+  repeat match goal with
+         | |- (if ?b then _ else _) = pre _ (if ?b then _ else _) => destruct b
+         end.
 
-Ltac brk :=
-  repeat (match goal with
-          | |- context [if ?b then _ else _] => destruct b
-          | |- context [match ?x with _ => _ end] => destruct x
-          end; prj).
+Lemma apply_rep_pre R lo hi st : apply_rep lo hi (pre R st) = pre R (apply_rep lo hi st).
+Proof.
+  unfold apply_rep. change (p_top (pre R st)) with (p_top st).
+  destruct (rev (f_cur (p_top st))) as [|last before]; [reflexivity|].
+  destruct (item_nonempty last); reflexivity.
+Qed.
 
-Ltac fin := try reflexivity; try (rewrite <- app_assoc; reflexivity); try (rewrite app_assoc; reflexivity).
+Lemma rep_then_pre R lo hi st :
+  (let st' := apply_rep lo hi (pre R st) in match p_mode st' with MErr => st' | _ => after_item st' end)
+  = pre R (let st' := apply_rep lo hi st in match p_mode st' with MErr => st' | _ => after_item st' end).
+Proof.
+  cbv zeta. rewrite apply_rep_pre. set (y := apply_rep lo hi st).
+  change (p_mode (pre R y)) with (p_mode y). destruct (p_mode y); reflexivity.
+Qed.
+
+Lemma finish_rule_pre R st : finish_rule (pre R st) = pre R (finish_rule st).
+Proof. unfold finish_rule, pre. prj. rewrite app_assoc. reflexivity. Qed.
+
+Lemma got_char_pre R e ch st : got_char e ch (pre R st) = pre R (got_char e ch st).
+Proof. destruct e; reflexivity. Qed.
+
+Lemma cls_head_pre R st c : cls_head (pre R st) c = pre R (cls_head st c).
+Proof. unfold cls_head. hd; reflexivity. Qed.
+
+Lemma dispatch_pre R k st c : dispatch false k (pre R st) c = pre R (dispatch false k st c).
+Proof.
+  destruct k; unfold dispatch.
+  - hd; reflexivity.
+  - hd; reflexivity.
+  - hd; try reflexivity; try apply rep_then_pre.
+    change (p_stack (pre R st)) with (p_stack st). destruct (p_stack st) as [|outer stack'].
+    + hd; [apply finish_rule_pre|reflexivity].
+    + hd; reflexivity.
+  - hd; reflexivity.
+  - hd; try reflexivity; apply rep_then_pre.
+  - hd; try reflexivity; apply rep_then_pre.
+  - hd; try reflexivity; apply rep_then_pre.
+Qed.
+
+Lemma space_step_pre R nl k st c : space_step false nl k (pre R st) c = pre R (space_step false nl k st c).
+Proof. unfold space_step. hd; try reflexivity. apply dispatch_pre. Qed.
 
 Lemma step_pre R st c : step (pre R st) c = pre R (step st c).
 Proof.
-  destruct st as [m nm tp stk acc neg cls rules].
-  destruct m; unfold gbnf_step; unf.
-  - (* MSpace *) destruct k; brk; fin.
-  - (* MComment *) destruct k; brk; fin.
-  - brk; fin.
-  - brk; fin.
-  - brk; fin.
-  - brk; fin.
-  - brk; fin.
-  - brk; fin.
-  - brk; fin.
-  - brk; fin.
-  - brk; fin.
-  - brk; fin.
-  - brk; fin.
+  unfold gbnf_step. change (p_mode (pre R st)) with (p_mode st).
+  destruct (p_mode st) eqn:Em.
+  - apply space_step_pre.
+  - hd; [apply space_step_pre|reflexivity].
+  - change (p_acc (pre R st)) with (p_acc st). hd; [reflexivity|].
+    change (mkP (MSpace false KDef) (p_acc st) frame0 [] [] false [] (p_rules (pre R st)))
+      with (pre R (mkP (MSpace false KDef) (p_acc st) frame0 [] [] false [] (p_rules st))).
+    apply space_step_pre.
+  - hd; reflexivity.
+  - hd; reflexivity.
+  - hd; try reflexivity; apply got_char_pre.
+  - destruct (hex_val c); [|reflexivity]. destruct hleft as [|[|l]]; try reflexivity. apply got_char_pre.
+  - change (p_acc (pre R st)) with (p_acc st). hd; [reflexivity|].
+    cbv zeta.
+    change (add_item (IRef (p_acc st)) (set_acc [] (pre R st)))
+      with (pre R (add_item (IRef (p_acc st)) (set_acc [] st))).
+    apply space_step_pre.
+  - hd; [reflexivity|apply cls_head_pre].
+  - apply cls_head_pre.
+  - hd; [reflexivity|].
+    change (set_cls (p_neg (pre R st)) (p_cls (pre R st) ++ [(lo, None)]) (pre R st))
+      with (pre R (set_cls (p_neg st) (p_cls st ++ [(lo, None)]) st)).
+    apply cls_head_pre.
+  - hd; try reflexivity.
+    change (set_cls (p_neg (pre R st)) (p_cls (pre R st) ++ [(lo, None); (c_dash, None)]) (pre R st))
+      with (pre R (set_cls (p_neg st) (p_cls st ++ [(lo, None); (c_dash, None)]) st)).
+    apply cls_head_pre.
+  - hd; [reflexivity|]. destruct lo; apply space_step_pre.
   - reflexivity.
 Qed.
 
@@ -80,3 +129,109 @@ Qed.
 
 Lemma blank_frame R : runf (top R) [c_nl] = top R.
 Proof. reflexivity. Qed.
+
+(* ---- payload lemmas ---------------------------------------------------------------------------------- *)
+Lemma run_cons st c s : runf st (c :: s) = runf (step st c) s.
+Proof. reflexivity. Qed.
+
+Lemma run_nil st : runf st [] = st.
+Proof. reflexivity. Qed.
+
+Definition wordc (c : N) : bool := is_word_char false c.
+Definition plainc (c : N) : bool := negb (N.eqb c c_dq) && negb (N.eqb c c_bs).
+Definition nonl (c : N) : bool := negb (N.eqb c c_cr) && negb (N.eqb c c_nl).
+Definition nz (c : N) : bool := negb (N.eqb c 0).
+
+(* rule-name characters *)
+Lemma run_rulename s : forall nm tp stk a neg cls R, forallb wordc s = true ->
+  runf (mkP MRuleName nm tp stk a neg cls R) s = mkP MRuleName nm tp stk (a ++ s) neg cls R.
+Proof.
+  induction s as [|c s IH]; intros nm tp stk a neg cls R H.
+  - rewrite app_nil_r. reflexivity.
+  - cbn [forallb] in H. apply andb_true_iff in H as [Hc Hs]. rewrite run_cons.
+    unfold gbnf_step. prj. unfold wordc in Hc. rewrite Hc. unfold set_acc. prj.
+    rewrite IH by exact Hs. rewrite <- app_assoc. reflexivity.
+Qed.
+
+Lemma run_ref s : forall nm tp stk a neg cls R, forallb wordc s = true ->
+  runf (mkP MRef nm tp stk a neg cls R) s = mkP MRef nm tp stk (a ++ s) neg cls R.
+Proof.
+  induction s as [|c s IH]; intros nm tp stk a neg cls R H.
+  - rewrite app_nil_r. reflexivity.
+  - cbn [forallb] in H. apply andb_true_iff in H as [Hc Hs]. rewrite run_cons.
+    unfold gbnf_step. prj. unfold wordc in Hc. rewrite Hc. unfold set_acc. prj.
+    rewrite IH by exact Hs. rewrite <- app_assoc. reflexivity.
+Qed.
+
+(* literal body without quote / backslash *)
+Lemma run_lit_plain s : forall nm tp stk a neg cls R, forallb plainc s = true ->
+  runf (mkP MLit nm tp stk a neg cls R) s = mkP MLit nm tp stk (a ++ s) neg cls R.
+Proof.
+  induction s as [|c s IH]; intros nm tp stk a neg cls R H.
+  - rewrite app_nil_r. reflexivity.
+  - cbn [forallb] in H. apply andb_true_iff in H as [Hc Hs]. rewrite run_cons.
+    unfold plainc in Hc. apply andb_true_iff in Hc as [H1 H2]. apply negb_true_iff in H1, H2.
+    unfold gbnf_step. prj. rewrite H1, H2. unfold set_acc. prj.
+    rewrite IH by exact Hs. rewrite <- app_assoc. reflexivity.
+Qed.
+
+(* literal body produced by _escape_literal: any string *)
+Lemma run_lit_esc s : forall nm tp stk a neg cls R,
+  runf (mkP MLit nm tp stk a neg cls R) (flat_map gesc s) = mkP MLit nm tp stk (a ++ s) neg cls R.
+Proof.
+  induction s as [|c s IH]; intros nm tp stk a neg cls R.
+  - rewrite app_nil_r. reflexivity.
+  - cbn [flat_map]. rewrite run_app. unfold gesc at 1.
+    destruct (N.eqb_spec c c_bs) as [->|H1]; [|destruct (N.eqb_spec c c_dq) as [->|H2]].
+    + change (runf (mkP MLit nm tp stk a neg cls R) [c_bs; c_bs]) with (mkP MLit nm tp stk (a ++ [c_bs]) neg cls R).
+      rewrite IH, <- app_assoc. reflexivity.
+    + change (runf (mkP MLit nm tp stk a neg cls R) [c_bs; c_dq]) with (mkP MLit nm tp stk (a ++ [c_dq]) neg cls R).
+      rewrite IH, <- app_assoc. reflexivity.
+    + rewrite run_cons, run_nil. unfold gbnf_step. prj.
+      rewrite (proj2 (N.eqb_neq c c_dq)), (proj2 (N.eqb_neq c c_bs)) by assumption. unfold set_acc. prj.
+      rewrite IH, <- app_assoc. reflexivity.
+Qed.
+
+(* comment body *)
+Lemma run_comment s : forall nl k nm tp stk a neg cls R, forallb nonl s = true ->
+  runf (mkP (MComment nl k) nm tp stk a neg cls R) s = mkP (MComment nl k) nm tp stk a neg cls R.
+Proof.
+  induction s as [|c s IH]; intros nl k nm tp stk a neg cls R H; [reflexivity|].
+  cbn [forallb] in H. apply andb_true_iff in H as [Hc Hs]. rewrite run_cons.
+  unfold nonl in Hc. apply andb_true_iff in Hc as [H1 H2]. apply negb_true_iff in H1, H2.
+  unfold gbnf_step. prj. rewrite H1, H2. cbn [orb]. apply IH. exact Hs.
+Qed.
+
+(* ---- alphanumeric characters are none of the special characters ---------------------------------------- *)
+Lemma alnum_neq c k : is_alnum c = true -> is_alnum k = false -> N.eqb c k = false.
+Proof. intros H K. destruct (N.eqb_spec c k) as [->|]; [congruence|reflexivity]. Qed.
+
+Lemma alnum_wordc c : is_alnum c = true -> wordc c = true.
+Proof. intro H. unfold wordc, is_word_char. rewrite H. reflexivity. Qed.
+
+Lemma alnum_all_wordc s : forallb is_alnum s = true -> forallb wordc s = true.
+Proof.
+  induction s as [|c s IH]; [reflexivity|]. cbn [forallb]. intro H. apply andb_true_iff in H as [H1 H2].
+  rewrite (alnum_wordc _ H1), IH by exact H2. reflexivity.
+Qed.
+
+(* first character of a rule name, between rules *)
+Lemma step_top_alnum R c : is_alnum c = true -> step (top R) c = mkP MRuleName [] frame0 [] [c] false [] R.
+Proof.
+  intro H. unfold gbnf_step, top. prj. unfold space_step.
+  rewrite (alnum_neq c c_sp), (alnum_neq c c_tab), (alnum_neq c c_hash), (alnum_neq c c_cr), (alnum_neq c c_nl)
+    by (exact H || reflexivity).
+  cbn [orb andb]. unfold dispatch. rewrite (alnum_wordc _ H : is_word_char false c = true). reflexivity.
+Qed.
+
+(* first character of a reference, at an item boundary *)
+Lemma step_seq_alnum nl nm tp stk a neg cls R c : is_alnum c = true ->
+  step (mkP (MSpace nl KSeq) nm tp stk a neg cls R) c = mkP MRef nm tp stk [c] neg cls R.
+Proof.
+  intro H. unfold gbnf_step. prj. unfold space_step.
+  rewrite (alnum_neq c c_sp), (alnum_neq c c_tab), (alnum_neq c c_hash), (alnum_neq c c_cr), (alnum_neq c c_nl)
+    by (exact H || reflexivity).
+  cbn [orb]. rewrite andb_false_r. unfold dispatch.
+  rewrite (alnum_neq c c_dq), (alnum_neq c c_lbr) by (exact H || reflexivity).
+  rewrite (alnum_wordc _ H : is_word_char false c = true). reflexivity.
+Qed.
